@@ -168,7 +168,9 @@ class World:
     def visible_defs(self, path):
         """definitions a reference in `path` may target: own file + direct imports."""
         fs = [path] + [g for g in self.direct_imports(path) if g in self.files]
-        return [d for d in self.defs if d.file in fs]
+        # a name this file shadows with a copy of its own is not a way to reach the other file's definition
+        own_copies = {s.name for s in getattr(self, "shadow_defs", []) if s.file == path}
+        return [d for d in self.defs if d.file in fs and not (d.file != path and d.name in own_copies)]
 
     # ---- rendering
     def ref_text(self, ref):
@@ -290,7 +292,7 @@ def linecol(text, offset):
 
 
 def gen_world(tape, root, nfiles=1, qualified=False, max_refs=16, boxes=True, wraps=True, alt_multipart=True,
-              vals=False, layout=True, subdirs=False, min_defs=2, spaced_names=True):
+              vals=False, layout=True, subdirs=False, min_defs=2, spaced_names=True, shadows=False):
     """Draw a world.  Names are globally unique (d<i>, b<i>, u<i>, w<i>)."""
     w = World()
     w.qualified = qualified
@@ -370,6 +372,28 @@ def gen_world(tape, root, nfiles=1, qualified=False, max_refs=16, boxes=True, wr
                 wr.end = tape.chance(1, 2, "wrap-end")
                 add(wr, cont)
         fe._containers = containers
+    # shadows: a directly imported file g defines a top-level name that the importing file p defines itself.  The
+    # documented lookup order (the model itself first) makes p's references mean p's own definition; the copy in g is
+    # never a target.  Not generated where a third file imports both p and g (the statement does not order imports).
+    w.shadow_defs = []
+    if shadows and nfiles > 1:
+        for p in paths:
+            for g in dict.fromkeys(w.direct_imports(p)):
+                if g == p or g not in w.files or not tape.chance(1, 2, "shadow"):
+                    continue
+                if any(h not in (p, g) and p in w.direct_imports(h) and g in w.direct_imports(h) for h in paths):
+                    continue
+                cands = [d for d in w.defs if d.file == p and d.parent is None]
+                if not cands:
+                    continue
+                victim = tape.pick(cands, "shadow-victim")
+                if any(d.file == g and d.name == victim.name for d in w.shadow_defs):
+                    continue
+                s_ = Ent("def", victim.name, g, None)
+                s_.pre_tokens = []
+                s_.idx = len(w.files[g].items)
+                w.files[g].items.append(s_)
+                w.shadow_defs.append(s_)
     # uses and references
     budget = max_refs
     for p in paths:
